@@ -22,6 +22,11 @@ def run(chk):
     if only:
         chk.cov['exhaustive'] = False
 
+    # the first parse builds pyparsing's grammar (seconds of CPU): do it once
+    # here so that the forked workers inherit it instead of each paying for it
+    # under their own compile time limit
+    impl.compile_text('x% = 1 + 2 : PRINT x%', 2, True, limit=120.0)
+
     if not only or 'windows' in only:
         fams['windows'] = run_windows(chk)
     if not only or 'consts' in only:
